@@ -322,6 +322,13 @@ func c01ApplyEdits(m *mail.Msg, s *gen.MsgSpec, edits []string) *gen.MsgSpec {
 			}()
 		case "part-enc":
 			if idx < len(eff.Parts) {
+				if val == "quoted-printable" {
+					// quoted-printable carries text (line breaks are CRLF): a part that may hold arbitrary octets gets a text
+					// content along with the encoding
+					txt := "text for the re-encoded part =3D with an equals sign\r\nsecond line, trailing blank \r\n"
+					m.GetParts()[live[idx]].SetContent(txt)
+					eff.Parts[idx].Content = []byte(txt)
+				}
 				m.GetParts()[live[idx]].SetEncoding(mail.Encoding(val))
 				eff.Parts[idx].Enc = val
 			}
